@@ -18,18 +18,23 @@ var logCapMu sync.Mutex
 // CaptureLog runs f with the library logger at the given verbosity and returns the lines it logged meanwhile. Like
 // AtVerbosity it must only be called while no other goroutine is inside the library or writes to descriptor 1.
 func (x *Ctx) CaptureLog(level int, f func()) []string {
+	return CaptureLogAt(level, func() { x.AtVerbosity(level, f) })
+}
+
+// CaptureLogAt is CaptureLog without a run context (replays): f is expected to set the verbosity itself or not to care.
+func CaptureLogAt(level int, f func()) []string {
 	logCapMu.Lock()
 	defer logCapMu.Unlock()
 	tmp, err := os.CreateTemp("", "verif-logcap")
 	if err != nil {
-		x.AtVerbosity(level, f)
+		f()
 		return nil
 	}
 	defer tmp.Close()
 	_ = os.Remove(tmp.Name())
 	saved, err := syscall.Dup(1)
 	if err != nil {
-		x.AtVerbosity(level, f)
+		f()
 		return nil
 	}
 	_ = syscall.Dup2(int(tmp.Fd()), 1)
@@ -38,7 +43,7 @@ func (x *Ctx) CaptureLog(level int, f func()) []string {
 			_ = syscall.Dup2(saved, 1)
 			_ = syscall.Close(saved)
 		}()
-		x.AtVerbosity(level, f)
+		f()
 	}()
 	_, _ = tmp.Seek(0, io.SeekStart)
 	b, _ := io.ReadAll(tmp)
